@@ -7,7 +7,6 @@
 //! (std; avoids symbolic-length memmove), Driver::{set,unset,with_current} -> same bodies over
 //! a static instead of `thread_local!` storage (kani-compiler ICE on TLS destructors).
 #![allow(dead_code, unused_imports, static_mut_refs, clippy::all)]
-extern crate alloc as alloc_crate;
 use super::*;
 use crate::time::sleep::Sleep;
 use crate::time::{Duration, SimTime};
@@ -70,43 +69,59 @@ fn push_slot(q: &Arc<TimerQueue>, time: SimTime, live: bool, id: usize) {
     q.pending.borrow_mut().push_back(Arc::new(slot));
 }
 
-/// representation invariant of the queue: strictly sorted by time, back pointers correct,
-/// entry ids distinct inside a slot
-fn inv(q: &Arc<TimerQueue>) -> bool {
+/// slot i of the queue (None if out of range): (time, number of entries, id of entry 0, id of entry 1)
+fn slot(q: &Arc<TimerQueue>, i: usize) -> Option<(SimTime, usize, usize, usize)> {
     let p = q.pending.borrow();
-    let mut i = 0;
-    while i < p.len() {
-        if i + 1 < p.len() && !(p[i].time < p[i + 1].time) {
-            return false;
-        }
-        if !Arc::ptr_eq(&p[i].queue, q) {
-            return false;
-        }
-        i += 1;
+    if i >= p.len() {
+        return None;
     }
-    true
+    let e = p[i].entrys.borrow();
+    let n = e.len();
+    let id0 = if n > 0 { e[0].id } else { usize::MAX };
+    let id1 = if n > 1 { e[1].id } else { usize::MAX };
+    Some((p[i].time, n, id0, id1))
 }
 
-/// (number of slots holding an entry with `id`, time of the first such slot)
-fn find_entry(q: &Arc<TimerQueue>, id: usize) -> (usize, SimTime) {
+fn qlen(q: &Arc<TimerQueue>) -> usize {
+    q.pending.borrow().len()
+}
+
+/// representation invariant (<= 3 slots): strictly sorted by time, back pointers correct
+fn inv(q: &Arc<TimerQueue>) -> bool {
     let p = q.pending.borrow();
-    let mut n = 0;
-    let mut t = SimTime::MAX;
-    let mut i = 0;
-    while i < p.len() {
-        let e = p[i].entrys.borrow();
-        let mut j = 0;
-        while j < e.len() {
-            if e[j].id == id {
-                if n == 0 {
-                    t = p[i].time;
-                }
-                n += 1;
-            }
-            j += 1;
-        }
-        i += 1;
+    let n = p.len();
+    if n > 3 {
+        return false;
     }
+    if n >= 2 && !(p[0].time < p[1].time) {
+        return false;
+    }
+    if n >= 3 && !(p[1].time < p[2].time) {
+        return false;
+    }
+    (n < 1 || Arc::ptr_eq(&p[0].queue, q)) && (n < 2 || Arc::ptr_eq(&p[1].queue, q)) && (n < 3 || Arc::ptr_eq(&p[2].queue, q))
+}
+
+fn has(s: Option<(SimTime, usize, usize, usize)>, id: usize) -> usize {
+    match s {
+        Some((_, n, a, b)) => (n > 0 && a == id) as usize + (n > 1 && b == id) as usize,
+        None => 0,
+    }
+}
+
+/// (number of registrations of timer `id` over the first 3 slots, time of the first such slot)
+fn find_entry(q: &Arc<TimerQueue>, id: usize) -> (usize, SimTime) {
+    let (s0, s1, s2) = (slot(q, 0), slot(q, 1), slot(q, 2));
+    let n = has(s0, id) + has(s1, id) + has(s2, id);
+    let t = if has(s0, id) > 0 {
+        s0.unwrap().0
+    } else if has(s1, id) > 0 {
+        s1.unwrap().0
+    } else if has(s2, id) > 0 {
+        s2.unwrap().0
+    } else {
+        SimTime::MAX
+    };
     (n, t)
 }
 
@@ -117,7 +132,6 @@ macro_rules! tq_harness {
         #[kani::stub(std::sync::Arc::drop_slow, arc_drop_slow_noop)]
         #[kani::stub(std::collections::VecDeque::insert, vp::insert_by_swaps)]
         #[kani::stub(std::collections::VecDeque::remove, vp::remove_by_swaps)]
-        #[kani::stub(alloc_crate::alloc::realloc_nonnull, vp::realloc_nonnull_words)]
         #[kani::stub(Driver::set, set_stub)]
         #[kani::stub(Driver::unset, unset_stub)]
         #[kani::stub(Driver::with_current, with_current_stub)]
@@ -164,7 +178,7 @@ fn bump2() {
     let woken = q.bump();
     let due = (t0 <= now) as usize + (t1 <= now) as usize;
     assert!(woken.len() == due, "C05 bump returns exactly the slots with deadline <= now");
-    assert!(q.pending.borrow().len() == 2 - due, "C05 bump leaves exactly the slots with deadline > now");
+    assert!(qlen(&q) == 2 - due, "C05 bump leaves exactly the slots with deadline > now");
     if due < 2 {
         assert!(q.pending.borrow()[0].time > st(now), "C05 nothing with deadline > now is woken");
     }
@@ -188,6 +202,112 @@ fn bump2() {
     std::mem::forget((q, it));
 }
 tq_harness!(c05_bump_exactly_due, 4, bump2());
+
+/// one slot (live or emptied), symbolic now: bump returns it iff due
+fn bump1() {
+    let q = Arc::new(TimerQueue::new());
+    let t0 = any_in(1, 5);
+    let l0: bool = kani::any();
+    push_slot(&q, st(t0), l0, 0);
+    let now = any_in(0, 6);
+    SimTime::set_now(st(now));
+    let woken = q.bump();
+    let due = (t0 <= now) as usize;
+    assert!(woken.len() == due, "C05 bump returns exactly the slots with deadline <= now");
+    assert!(qlen(&q) == 1 - due, "C05 bump leaves exactly the slots with deadline > now");
+    let mut it = woken.into_iter();
+    if let Some(s) = it.next() {
+        assert!(s.time <= st(now), "C05 a woken slot has deadline <= now");
+        s.wake_all();
+    }
+    assert!(wakes(0) == (l0 && t0 <= now) as u8, "C05 timer woken iff live and its deadline is reached, exactly once");
+    kani::cover!(now == t0, "REACH now exactly at the deadline");
+    kani::cover!(true, "REACH end of harness");
+    std::mem::forget((q, it));
+}
+tq_harness!(c05_bump_one_slot, 4, bump1());
+
+/// add into a queue holding one slot: before / same deadline / after
+fn add_into1() {
+    let q = Arc::new(TimerQueue::new());
+    let t0 = any_in(1, 5);
+    push_slot(&q, st(t0), true, 0);
+    let t = any_in(0, 6);
+    let h = q.add(TimerSlotEntry { waker: waker(2), id: 2 }, st(t));
+    assert!(inv(&q), "C05 queue stays strictly sorted after add");
+    let (n, at) = find_entry(&q, 2);
+    assert!(n == 1 && at == st(t), "C05 added timer registered exactly once at its deadline");
+    assert!(qlen(&q) == if t == t0 { 1 } else { 2 }, "C05 add shares the slot of an equal deadline, otherwise creates one");
+    assert!(find_entry(&q, 0) == (1, st(t0)), "C05 add does not disturb other timers");
+    kani::cover!(t == t0, "REACH equal deadlines share a slot");
+    kani::cover!(t < t0, "REACH insertion before the front");
+    kani::cover!(t > t0, "REACH insertion after the back");
+    kani::cover!(true, "REACH end of harness");
+    std::mem::forget((q, h));
+}
+tq_harness!(c05_add_one_slot, 4, add_into1());
+
+/// a registered timer is dropped (not fired): it is unregistered and next() skips its slot
+fn drop_unregisters() {
+    let q = Arc::new(TimerQueue::new());
+    let t = any_in(1, 6);
+    let h = q.add(TimerSlotEntry { waker: waker(1), id: 1 }, st(t));
+    assert!(find_entry(&q, 1) == (1, st(t)) && q.next() == Some(st(t)), "C05 registered timer is the next wake-up");
+    let fired: bool = kani::any();
+    let mut h = h;
+    if fired {
+        h.resolve();
+    }
+    drop(h);
+    if !fired {
+        assert!(find_entry(&q, 1).0 == 0, "C05 a dropped timer is unregistered");
+        assert!(q.next().is_none(), "C05 no wake-up is requested for a slot without live timers");
+    }
+    kani::cover!(true, "REACH end of harness");
+    std::mem::forget(q);
+}
+tq_harness!(c05_drop_unregisters, 4, drop_unregisters());
+
+/// reset moves the registration to the new deadline
+fn reset_moves() {
+    let q = Arc::new(TimerQueue::new());
+    let t = any_in(1, 6);
+    let h = q.add(TimerSlotEntry { waker: waker(1), id: 1 }, st(t));
+    let t2 = any_in(1, 6);
+    let h2 = h.reset(st(t2));
+    assert!(h2.is_some(), "C05 reset of a registered timer yields a new registration");
+    let (n, at) = find_entry(&q, 1);
+    assert!(n == 1 && at == st(t2), "C05 reset moves the timer to the new deadline, exactly once");
+    assert!(inv(&q), "C05 queue invariant preserved by reset");
+    kani::cover!(t2 < t, "REACH reset to an earlier deadline");
+    kani::cover!(t2 > t, "REACH reset to a later deadline");
+    kani::cover!(true, "REACH end of harness");
+    std::mem::forget((q, h2));
+}
+tq_harness!(c05_reset_moves_registration, 4, reset_moves());
+
+/// first poll of a fresh Sleep
+fn sleep_first_poll() {
+    let q = install_driver();
+    let now = any_in(0, 4);
+    SimTime::set_now(st(now));
+    let d = any_in(0, 6);
+    let mut s = Box::pin(Sleep::new(st(d)));
+    let id = s.id_for_verif();
+    let r = poll_sleep(&mut s, 0);
+    if d <= now {
+        assert!(r == Poll::Ready(()), "C05 a deadline that is already reached completes immediately");
+        assert!(qlen(&q) == 0, "C05 an elapsed sleep registers nothing");
+    } else {
+        assert!(r == Poll::Pending, "C05 sleep never completes before its deadline");
+        assert!(find_entry(&q, id) == (1, st(d)) && qlen(&q) == 1, "C05 pending sleep is registered exactly once at its deadline");
+        assert!(q.next() == Some(st(d)), "C05 the registered deadline is the next wake-up");
+    }
+    kani::cover!(d == now, "REACH deadline equals now");
+    kani::cover!(true, "REACH end of harness");
+    std::mem::forget((q, s));
+}
+tq_harness!(c05_sleep_first_poll, 4, sleep_first_poll());
 
 // ------------------------------------------------------------------ add()
 fn add_into2() {
